@@ -29,6 +29,11 @@ INPUTS = {
     "shared": [{"id": 1, "billing": {"street": "s", "geo": {"lat": 1.5, "lon": 2.5}}, "shipping": {"carrier": "c", "eta": 3, "geo": {"lat": 3.5, "lon": 4.5}},
                 "kind": "x"}],
     "reserved": [{"field": 1, "attr": "x", "dataclass": True, "type": 2, "optional": None, "convert_strings": "1"}],
+    # a plain type next to its own pseudo-type inside a list / under Optional / in a mapping (what a renderer could be tempted to fold)
+    "mixed": [{"vals": [0.5, "1.5"], "n": 10, "w": [1, "2", None]}, {"vals": [], "n": None, "w": []}, {"vals": [2.5], "n": "30", "w": ["x1"]}],
+    # the same model twice with its keys in a different order (equal as a dict, same index in its own registry)
+    "permA": [{"b": 1, "a": "x", "c": 1.5, "sub": {"z": 1, "y": "s"}}],
+    "permB": [{"a": "x", "c": 1.5, "b": 1, "sub": {"y": "s", "z": 1}}],
     "literal": [{"kind": "a", "st": "x", "sub": {"mode": "on"}}, {"kind": "b", "st": "y", "sub": {"mode": "off"}}, {"kind": "c", "st": "x", "sub": {"mode": "on"}}],
 }
 
@@ -58,12 +63,20 @@ EVENTS = {
     "R_r1_dc_flat_ml0": ("R", "r1", "dataclasses", "flat", {"max_literals": 0}),
     "R_r2_pyd_flat": ("R", "r2", "pydantic", "flat", {"convert_unicode": False}),
     "R_r2_base_nested": ("R", "r2", "base", "nested", {"convert_unicode": False}),
+    "B_r3": ("B", "r3", "mixed"),
+    "R_r3_pyd_flat": ("R", "r3", "pydantic", "flat", {}),
+    "R_r3_dc_flat": ("R", "r3", "dataclasses", "flat", {}),
+    "R_r3_base_nested": ("R", "r3", "base", "nested", {}),
+    "G_permA_dc": ("G", "permA", "dataclasses", "flat", {}, "explicit"),
+    "G_permB_dc": ("G", "permB", "dataclasses", "flat", {}, "explicit"),
+    "G_permB_pyd_nested": ("G", "permB", "pydantic", "nested", {}, "explicit"),
     "X_tree_nested": ("X", "tree", "nested", None),
     "X_r1_flat": ("X", None, "flat", "r1"),
 }
 QUICK_EVENTS = ["G_reserved_pyd", "G_reserved_base", "G_pseudo_base_conv", "G_pseudo_attrs_conv", "G_pseudo_base_defaultreg", "G_literal_dc", "G_literal_dc_style_nolit", "G_pseudo_pyd", "G_pseudo_pyd_style_noactual", "G_shared_flat", "X_shared_nested",
                 "G_tree_pyd", "G_pseudo_attrs_nested_dt", "G_literal_dc_conv_ml0", "G_nonascii_pyd_nouni", "G_nonascii_attrs_uni", "B_r1", "B_r2",
-                "R_r1_pyd_flat", "R_r1_attrs_nested", "R_r2_pyd_flat", "R_r2_base_nested", "X_tree_nested", "X_r1_flat"]
+                "R_r1_pyd_flat", "R_r1_attrs_nested", "R_r2_pyd_flat", "R_r2_base_nested", "X_tree_nested", "X_r1_flat",
+                "B_r3", "R_r3_pyd_flat", "R_r3_dc_flat", "R_r3_base_nested", "G_permA_dc", "G_permB_dc", "G_permB_pyd_nested"]
 
 SHARED = {}       # registry name -> Built (state of THIS process; inherited by forked children)
 EXPECTED = {}     # event -> observation as a length-1 history (R/X on shared registries: after their B)
